@@ -16,9 +16,9 @@
 
   Reading of the text (DESIGN.md §6.0): with duplicate thread ids the LAST matching thread is the
   requesting thread and the LAST readable duplicate name wins.
-  Known deviation of the code from the text (finding C14-dump-thread-name): the call stack of the
-  dump-writer thread carries no name even when the names stream has one; `stacks_match_threads`
-  states names for all other threads and `dump_thread_name_dropped` exhibits the deviation.
+  History: the check found that the dump-writer thread's call stack lost its name (finding
+  C14-dump-thread-name); /repo commit 1dec95b repaired it, the model follows the repaired code and
+  `stacks_match_threads` states the names of ALL threads, the dump-writer thread included.
 -/
 import MdProofs.Lemmas.Index
 import MdProofs.Lemmas.IndexReason
@@ -30,14 +30,13 @@ open MdModel.Reason (Exc Reason Os Cpu)
 /-! ## 1. "exactly one call stack per entry of the thread list, in order, with the same thread
         ids and names" -/
 
-/-- **C14.1** one call stack per thread-list entry, in order, with the thread's id and — for every
-    thread but the skipped dump-writer thread — the name the names stream gives that id. -/
+/-- **C14.1** one call stack per thread-list entry, in order, with the thread's id and the name
+    the names stream gives that id — for EVERY thread, the skipped dump-writer thread included. -/
 theorem stacks_match_threads (d : Dump) (ts : List Thread) (s : State)
     (hth : d.threads = some ts) (h : index d = .state s) :
     s.stacks.length = ts.length ∧
     ∀ i (h1 : i < ts.length) (h2 : i < s.stacks.length),
-      s.stacks[i].id = ts[i].id ∧
-      (isDumpThread d ts[i] = false → s.stacks[i].name = nameOf d.names ts[i].id) := by
+      s.stacks[i].id = ts[i].id ∧ s.stacks[i].name = nameOf d.names ts[i].id := by
   obtain ⟨hatt, -⟩ := index_state_inv d ts s hth h
   have hcore := attach_core _ _ _ _ hatt
   have hlen : s.stacks.length = ts.length := by
@@ -55,8 +54,10 @@ theorem stacks_match_threads (d : Dump) (ts : List Thread) (s : State)
     split
     · rfl
     · split <;> rfl
-  · intro hnd
-    rw [hname]; unfold stackOf; rw [if_neg (by simp [hnd])]; split <;> rfl
+  · rw [hname]; unfold stackOf
+    split
+    · rfl
+    · split <;> rfl
 
 /-- the names stream is an id-keyed map filled in stream order in which unreadable strings are
     skipped: the LAST readable entry for an id wins … -/
@@ -72,10 +73,11 @@ theorem nameOf_none (names : List (Nat × Option String)) (id : Nat)
     (h : ∀ e ∈ names, e.1 = id → e.2 = none) : nameOf names id = none := by
   rw [nameOf_eq]; exact nameFold_keep id none names h
 
-/-- the deviation from the property text: the dump-writer thread's stack has no name, whatever the
-    names stream says (`CallStack::with_info` at processor.rs:1049) -/
-theorem dump_thread_name_dropped (d : Dump) (t : Thread) (h : isDumpThread d t = true) :
-    (stackOf d t).name = none ∧ (stackOf d t).info = .dumpThreadSkipped ∧ (stackOf d t).frame0 = none := by
+/-- the dump-writer thread is skipped — no frame, `DumpThreadSkipped` — but keeps its name
+    (processor.rs:1047-1056 after /repo commit 1dec95b) -/
+theorem dump_thread_skipped (d : Dump) (t : Thread) (h : isDumpThread d t = true) :
+    (stackOf d t).name = nameOf d.names t.id ∧ (stackOf d t).info = .dumpThreadSkipped ∧
+    (stackOf d t).frame0 = none := by
   unfold stackOf; rw [if_pos h]; exact ⟨rfl, rfl, rfl⟩
 
 /-! ## 2. "the requesting thread is the non-dump-writer thread named by the exception record,
@@ -175,7 +177,7 @@ theorem context_preference (d : Dump) (ts : List Thread) (s : State)
   rw [hinfo, hf0]
   constructor
   · intro hd
-    exact ⟨(dump_thread_name_dropped d _ hd).2.1, (dump_thread_name_dropped d _ hd).2.2⟩
+    exact ⟨(dump_thread_skipped d _ hd).2.1, (dump_thread_skipped d _ hd).2.2⟩
   · intro hd
     have hstart : (stackOf d ts[i]).frame0 = startCtx d ts[i] ∧
         ((stackOf d ts[i]).info = .missingContext ↔ startCtx d ts[i] = none) ∧
@@ -770,7 +772,7 @@ theorem badSize_iff (m : Mod) : badSize m = true ↔ m.size = 0 ∨ m.base + m.s
 
 /-- three threads (ids 5, 7, 5), Breakpad says thread 7 wrote the dump, the exception names
     thread 5: both threads with id 5 start from the exception context, the last one is the
-    requesting thread, thread 7 is skipped and loses its name -/
+    requesting thread, thread 7 is skipped and keeps its name -/
 def exampleDump : Dump :=
   { platformId := 3, arch := 0, timestamp := 42,
     threads := some [⟨5, some 0x1000⟩, ⟨7, some 0x2000⟩, ⟨5, none⟩],
@@ -791,13 +793,13 @@ example : ∃ s, exampleDump.threads = some exampleThreads ∧ index exampleDump
 /-- … and this is what they say about it (the sort-free parts evaluated by the kernel) -/
 example :
     (exampleThreads.map (stackOf exampleDump)).map Stack.core =
-      [(5, some "b", .ok, some 0x3000), (7, none, .dumpThreadSkipped, none), (5, some "b", .ok, some 0x3000)] ∧
+      [(5, some "b", .ok, some 0x3000), (7, some "writer", .dumpThreadSkipped, none), (5, some "b", .ok, some 0x3000)] ∧
     (loop exampleDump 0 exampleThreads none).2 = some 2 ∧
     requestingId exampleDump = some 5 ∧ dumpThreadId exampleDump.breakpad = some 7 ∧
     processId exampleDump = some 99 ∧ createTime exampleDump = none := by decide
 
 example : isDumpThread exampleDump ⟨7, some 0x2000⟩ = true ∧
-    nameOf exampleDump.names 7 = some "writer" ∧ (stackOf exampleDump ⟨7, some 0x2000⟩).name = none := by decide
+    nameOf exampleDump.names 7 = some "writer" ∧ (stackOf exampleDump ⟨7, some 0x2000⟩).name = some "writer" := by decide
 
 example : isRequesting exampleDump ⟨5, none⟩ = true ∧ isRequesting exampleDump ⟨7, some 0x2000⟩ = false ∧
     excCtx exampleDump = some 0x3000 := by decide
